@@ -318,6 +318,20 @@ pub fn c01_corpus() -> Vec<(ASchema, ADoc)> {
             // (no inline fragment on `Cat`: a payload of runtime type Cat still has to select its own unit variant)
             mk(vec![fld("animal", vec![ASel::Typename, fld("nick", vec![]), ASel::Inline { on: "Dog".into(), sub: vec![fld("barks", vec![])] }])], vec![]),
         ),
+        // two selections on one variant, one of them an inline fragment whose body is a single spread: both
+        // fragments have to contribute to the variant struct (must hold: repaired defect)
+        (
+            schema.clone(),
+            mk(
+                vec![fld("animal", vec![ASel::Typename, ASel::Inline { on: "Dog".into(), sub: vec![ASel::Spread { name: "DF".into() }] }, ASel::Spread { name: "DG".into() }, ASel::Inline { on: "Cat".into(), sub: vec![ASel::Spread { name: "CF".into() }] }, ASel::Inline { on: "Cat".into(), sub: vec![ASel::Spread { name: "CG".into() }] }])],
+                vec![
+                    AFrag { name: "DF".into(), on: "Dog".into(), sels: vec![fld("name", vec![])] },
+                    AFrag { name: "DG".into(), on: "Dog".into(), sels: vec![fld("barks", vec![])] },
+                    AFrag { name: "CF".into(), on: "Cat".into(), sels: vec![fld("nick", vec![])] },
+                    AFrag { name: "CG".into(), on: "Cat".into(), sels: vec![fld("meows", vec![])] },
+                ],
+            ),
+        ),
     ]
 }
 
